@@ -13,8 +13,9 @@
 (* callbacks per leader and a write reference count.                        *)
 (*                                                                         *)
 (* One action per critical section / linearisation point of the code:      *)
-(*   WriteRows        = WriteGet (GetOrCreateMemoryDatabase, family mutex)  *)
-(*                      ; WritePut (AcquireWrite + WriteRow, no family lock)*)
+(*   WriteRows        = WriteGet (acquireMemoryDatabase: the database and   *)
+(*                      the writer registration, family mutex)             *)
+(*                      ; WritePut (WriteRow + CompleteWrite, no family lock)*)
 (*   Flush            = FlushFreeze | FlushNothing | FlushBusy (isFlushing  *)
 (*                      guard + first mutex section), FlushCommit (table    *)
 (*                      written, kv commit: file visible), FlushAck per     *)
@@ -55,8 +56,13 @@ CONSTANTS
   RetryFailed,      \* [FALSE] a flush that failed after the freeze leaves the immutable database in place; later
                     \*         Flush calls return at once ("immutable not nil"), only Close flushes it
   ClosedRejects,    \* [FALSE] WriteRows on a closed (evicted) object is accepted silently
-  AtomicWrite,      \* [FALSE] GetOrCreateMemoryDatabase and AcquireWrite are two steps: the database can be frozen,
-                    \*         flushed and closed in between
+  AtomicWrite,      \* [FALSE] getting the memory database and writing into it are two steps (WriteGet ; WritePut): the
+                    \*         database can be frozen in between
+  RegisterAtGet,    \* [TRUE since the repair 81b03b7, FALSE before] the writer is registered (AcquireWrite) in the mutex
+                    \*         section that hands the database out, so a flush that froze the database waits for the
+                    \*         writer before it writes the file (FlushFamilyTo: writeCondition.Wait).  FALSE: AcquireWrite
+                    \*         happens later, without the lock -- the database can be flushed and closed in between and
+                    \*         the row goes into a closed database: accepted, in no file, never replayed
   AtomicEvict,      \* [FALSE] the checks of Evict (ref, memory databases) and the Close are separate steps
   UniqueStamp,      \* [TRUE since the repair, FALSE before] FALSE: the shard's memory index keeps the slot range of a memory database under its creation
                     \*         time (fasttime, 5 ms ticks): two databases created in one tick share one entry, and the
@@ -265,6 +271,7 @@ FlushFail(o) ==
 \* and visible
 FlushCommit(o) ==
   /\ fl[o] = "frozen"
+  /\ RegisterAtGet => wh # imm[o]     \* writeCondition.Wait(): the registered writer of the frozen database first
   /\ files' = Append(files, LiveRows(imm[o]))
   /\ dseq' = Over(immSeq[o], dseq)
   /\ fl' = [fl EXCEPT ![o] = "committed"]
@@ -319,6 +326,7 @@ CloseSeq(o) == IF cl[o] \in {"imm", "immack"} THEN immSeq[o] ELSE seq[o]
 \* flushMemoryDatabase of Close up to the kv commit
 CloseCommit(o) ==
   /\ cl[o] \in {"imm", "mut"}
+  /\ RegisterAtGet => wh # CloseDb(o)
   /\ IF CloseFlushes
        THEN files' = Append(files, LiveRows(CloseDb(o))) /\ dseq' = Over(CloseSeq(o), dseq)
        ELSE UNCHANGED <<files, dseq>>
@@ -422,6 +430,12 @@ FlushShape ==
 \* a write during the flush never lands in the frozen database (action property)
 FrozenNeverGrows ==
   [][\A o \in Obj : (imm[o] # 0 /\ imm'[o] = imm[o]) => dbRows'[imm[o]] = dbRows[imm[o]]]_vars
+\* ... and, with two-step writes, at least never into a database whose file is written already (action property)
+FlushedNeverGrows ==
+  [][\A o \in Obj : (imm[o] # 0 /\ imm'[o] = imm[o] /\ fl[o] \in {"committed", "released"})
+                       => dbRows'[imm[o]] = dbRows[imm[o]]]_vars
+\* a row never goes into a closed memory database
+NoWriteIntoClosed == [][\A d \in Db : (dbSt[d] = "closed" /\ dbSt'[d] = "closed") => dbRows'[d] = dbRows[d]]_vars
 \* no row is flushed into two files
 FlushedOnce == \A r \in Row : FileVis(r) <= 1
 \* a reader never sees a row twice (violated by the code between commit and drop: DoubleWindow)
